@@ -111,7 +111,7 @@ def cmdSkProba : P String := do
   | .error e => pure (showClfErr e)
   | .ok Q => pure ("ok " ++ showNats ci ++ " | " ++ showMat Q)
 
-/-- `skpredict <k> cls(k) <fitted> <hasCost> <n> estPred(n ints) P(n*k) C(k*k) noise(n*k) choice(n)` -/
+/-- `skpredict <k> cls(k) <fitted> <hasCost> <n> estPred(n ints) P(n*k) C(k*k) noise(n*k)` -/
 def cmdSkPredict : P String := do
   let k ← nat
   let cls ← many int k
@@ -121,8 +121,7 @@ def cmdSkPredict : P String := do
   let Pm ← mat float n k
   let C ← mat float k k
   let noise ← mat float n k
-  let choice ← many nat n
-  pure (showLabels (sklearnPredict cls fitted hasCost estPred Pm C noise choice))
+  pure (showLabels (sklearnPredict cls fitted hasCost estPred Pm C noise))
 
 /-- `enshard <k> <n> <e> preds(n*e)` : hard voting on the members' predicted class indices. -/
 def cmdEnsHard : P String := do
